@@ -10,8 +10,34 @@ from .ast import Mol, Stoch, Tok
 from .env import HarnessError
 
 
+def choice_limit(ast: Mol, targets):
+    """Upper bound on the number of rng.choice calls a correct generation can make, given the targets drawn so far.
+    Per unit: 2 choices + one throw-away finalisation (1 reservation + 2 per open descriptor); open descriptors grow by at
+    most D-1 per unit.  Safety factor 3."""
+    from . import refchem
+    total = 20 + 4 * len(ast.elements)
+    k = 0
+    for e in ast.elements:
+        if not isinstance(e, Stoch):
+            continue
+        if k >= len(targets):
+            break
+        T = max(0.0, float(targets[k]))
+        k += 1
+        masses = [refchem.heavy_mass(t) for t in e.repeat]
+        pos = [x for x in masses if x > 0]
+        mmin = min(pos) if pos else 1.0
+        D = max(len(t.atts) for t in e.tokens)
+        n = int(T / mmin) + 2
+        opens = 2 + n * max(1, D - 1)
+        # transition lists may instate end groups (no mass): each uses up one open descriptor
+        n += opens
+        total += n * (3 + 2 * opens) + 2 * opens + 5
+    return 3 * total
+
+
 @contextlib.contextmanager
-def draw_tap(force=None):
+def draw_tap(force=None, on_draw=None):
     """Class-level tap on every distribution's draw_mw.
 
     force: None (record only) or list of target values, used in call order (one per stochastic object).
@@ -34,6 +60,8 @@ def draw_tap(force=None):
                 else:
                     v = orig(self, rng)
                 calls.append((type(self).__name__, str(self), float(v)))
+                if on_draw is not None:
+                    on_draw(calls)
                 return v
             return draw_mw
         saved.append((c, orig))
@@ -86,8 +114,17 @@ class GenResult:
 
 def generate(parsed: Parsed, rng, targets=None, seconds=60, obj=None):
     obj = parsed.obj if obj is None else obj
-    with probe.tag_residues(parsed.tok_index) as events, draw_tap(targets) as draws:
-        status, val = probe.guarded(obj.generate, rng=rng, seconds=seconds)
+
+    def on_draw(calls):
+        if hasattr(rng, "limit"):
+            rng.limit = choice_limit(parsed.ast, [c[2] for c in calls])
+    if hasattr(rng, "limit"):
+        rng.limit = choice_limit(parsed.ast, [])
+    try:
+        with probe.tag_residues(parsed.tok_index) as events, draw_tap(targets, on_draw) as draws:
+            status, val = probe.guarded(obj.generate, rng=rng, seconds=seconds)
+    except probe.ChoiceBudget as exc:
+        return GenResult("budget", None, exc, [], [])
     if status == "ok":
         return GenResult("ok", val, None, events, draws)
     return GenResult(status, None, val, events, draws)
